@@ -325,6 +325,9 @@ Section RecIntMG.
     Definition mga_mul (b c : Z) : Z := mga_reduction (b * c).
     Definition mga_square (b : Z) : Z := mga_reduction (b * b).
     Definition mga_mul_T (b c : Z) : Z := mga_mul b (mga_of_unsigned c).  (* rmgmul.h: rmint cr(c); mul(a,b,cr) *)
+    (* mixed forms with a signed native operand: rmint cr(c) first (rmgmul.h, rmadd.h, rmsub.h, rmdiv.h, rmgaddmul.h);
+       inv(a, T b): rmint br(b); inv(a, br)   [as repaired by frag/C07.fix-5] *)
+    Definition mga_mul_Ti (b c : Z) : Z := mga_mul b (mga_of_signed c).
     Definition mga_add := rm_add p.
     Definition mga_sub := rm_sub p.
     Definition mga_subin := rm_subin p.
@@ -334,7 +337,8 @@ Section RecIntMG.
     Definition mga_T_sub (c b : Z) : Z := rm_neg p (rm_sub p b (mga_of_unsigned c)).   (* operator-(T, rmint) *)
     (* rmginv.h: reduction(a, b); inv_mod(a, a, p); to_mg(a) *)
     Definition mga_inv (b : Z) : Z := mga_to_mg (inv_mod B (mga_reduction b) p).
-    Definition mga_inv_T (b : Z) : Z := mga_to_mg (inv_mod B b p).        (* inv(a, T b) *)
+    Definition mga_inv_T (b : Z) : Z := mga_inv (mga_of_unsigned b).       (* inv(a, T b), T unsigned: rmint br(b); inv(a, br) *)
+    Definition mga_inv_Ti (b : Z) : Z := mga_inv (mga_of_signed b).        (* T signed *)
     (* rmdiv.h: inv(ci, c); if (ci == 0) reset(a) else mul(a, b, ci) *)
     Definition mga_div (b c : Z) : Z :=
       let ci := mga_inv c in if ci =? 0 then 0 else mga_mul b ci.
@@ -374,7 +378,9 @@ Section RecIntMG.
     Definition mgi_of_rint (c : Z) : Z :=
       let v := (Z.abs c) mod p in if c <? 0 then rm_neg p v else v.
     Definition mgi_get_ruint (a : Z) : Z := a.
-    Definition mgi_mul (b c : Z) : Z := (b * c) mod p.           (* lmul; mod_n  (also the limb form b * T) *)
+    Definition mgi_mul (b c : Z) : Z := (b * c) mod p.           (* lmul; mod_n *)
+    Definition mgi_mul_T (b c : Z) : Z := mgi_mul b (mgi_of_ruint c).      (* rmbmul.h as repaired by frag/C07.fix-4: rmint cr(c); mul(a,b,cr) *)
+    Definition mgi_mul_Ti (b c : Z) : Z := mgi_mul b (mgi_of_signed c).
     Definition mgi_add := rm_add p.
     Definition mgi_sub := rm_sub p.
     Definition mgi_subin := rm_subin p.
@@ -383,6 +389,8 @@ Section RecIntMG.
     Definition mgi_sub_T (b c : Z) : Z := rm_sub p b (mgi_of_ruint c).
     Definition mgi_T_sub (c b : Z) : Z := rm_neg p (rm_sub p b (mgi_of_ruint c)).
     Definition mgi_inv (b : Z) : Z := inv_mod B b p.
+    Definition mgi_inv_T (b : Z) : Z := mgi_inv (mgi_of_ruint b).
+    Definition mgi_inv_Ti (b : Z) : Z := mgi_inv (mgi_of_signed b).
     Definition mgi_div (b c : Z) : Z :=
       let ci := mgi_inv c in if ci =? 0 then 0 else mgi_mul b ci.
     Definition mgi_addmul (a b c : Z) : Z := (b * c + a) mod p.   (* laddmul(res, b, c, a); reduction *)
